@@ -106,6 +106,14 @@ class Executor:
         except Exception as e:
             raise Unbound('%s of %s does not fit the code found: %s: %s' % (what, self.c.qualname, type(e).__name__, e))
 
+    def local_names(self):
+        if not hasattr(self, '_locals'):
+            self._locals = set()
+            for nd in ast.walk(self.fn):
+                if isinstance(nd, ast.Name) and isinstance(nd.ctx, ast.Store):
+                    self._locals.add(nd.id)
+        return self._locals
+
     def assumed(self, text):
         self.assumptions.add(text)
 
@@ -135,7 +143,7 @@ class Executor:
             return z3.And(z3.Not(t.dt.is_none(sv.z)), inner)
         if isinstance(t, TRec):
             raise Unbound('truthiness of record dict')
-        if isinstance(t, (TFun, TOpaque)):
+        if isinstance(t, (TFun, TOpaque, TNum)):
             return z3.BoolVal(True)
         if isinstance(t, TTuple):
             return z3.BoolVal(len(sv.z) > 0)
@@ -145,6 +153,8 @@ class Executor:
         """value of type sv.t used where `ty` is declared"""
         if sv.t == ty:
             return sv
+        if ty is ANY:
+            return SV(ANY, fresh('any', ANY.sort()))
         if ty is REAL and sv.t is INT:
             return SV(REAL, z3.ToReal(sv.z))
         if ty is REAL and sv.t is BOOL:
@@ -257,6 +267,9 @@ class Executor:
             return [Res(st, SV(TType(n), None))]
         if n in CLASSES:
             return [Res(st, SV(TType(n), None))]
+        if n in self.local_names():
+            # a local that is not bound on this path
+            return [Res(st.copy().note('L%s: local %s is not bound' % (e.lineno, n)), exc='NameError', node=e)]
         raise Unbound('name %s (line %s)' % (n, e.lineno))
 
     def ev_Attribute(self, e, st):
@@ -389,8 +402,21 @@ class Executor:
         return bind(self.ev_list([e.left, e.right], st), f)
 
     def binop(self, op, a, b, s, node):
+        if isinstance(op, ast.Add) and a.t is STR and b.t is STR:
+            return [Res(s, SV(STR, STRCAT(a.z, b.z)))]
         if isinstance(op, ast.Add) and isinstance(a.t, TList) and isinstance(b.t, TList):
             return [Res(s, self.list_concat(a, b, s))]
+        if isinstance(a.t, TNum) or isinstance(b.t, TNum):
+            names = (getattr(a.t, 'nm', None), getattr(b.t, 'nm', None))
+            if isinstance(op, ast.Add) and names in (('datetime', 'timedelta'), ('timedelta', 'datetime')):
+                return [Res(s, SV(DATETIME, a.z + b.z))]
+            if isinstance(op, ast.Add) and names == ('timedelta', 'timedelta'):
+                return [Res(s, SV(TIMEDELTA, a.z + b.z))]
+            if isinstance(op, ast.Sub) and names == ('datetime', 'timedelta'):
+                return [Res(s, SV(DATETIME, a.z - b.z))]
+            if isinstance(op, ast.Sub) and names == ('datetime', 'datetime'):
+                return [Res(s, SV(TIMEDELTA, a.z - b.z))]
+            raise Unbound('arithmetic on %s and %s' % (a.t, b.t))
         if isinstance(op, (ast.Add, ast.Sub, ast.Mult)):
             a, b, t = self.num_join(a, b)
             z = {ast.Add: a.z + b.z, ast.Sub: a.z - b.z, ast.Mult: a.z * b.z}[type(op)]
@@ -458,8 +484,43 @@ class Executor:
     def ev_IfExp(self, e, st):
         def f(c, s):
             tv = self.truthy(c)
-            return self.ev(e.body, s.copy().assume(tv)) + self.ev(e.orelse, s.copy().assume(z3.Not(tv)))
+            r1 = self.ev(e.body, s.copy().assume(tv))
+            r2 = self.ev(e.orelse, s.copy().assume(z3.Not(tv)))
+            n1 = [r for r in r1 if r.exc is None]
+            n2 = [r for r in r2 if r.exc is None]
+            # merge the two normal results into one value when both branches are pure (no path explosion)
+            if len(n1) == 1 and len(n2) == 1 and self.same_state(n1[0].st, s) and self.same_state(n2[0].st, s):
+                a, b = n1[0].val, n2[0].val
+                m = None
+                if a.t == b.t and not isinstance(a.t, (TTuple,)) and a.t is not NONE and a.z is not None:
+                    m = SV(a.t, z3.If(tv, a.z, b.z))
+                elif {a.t, b.t} <= {INT, REAL, BOOL} and a.t is not b.t:
+                    a2, b2, t = self.num_join(a, b)
+                    m = SV(t, z3.If(tv, a2.z, b2.z))
+                if m is not None:
+                    s2 = s.copy()
+                    # facts learned inside the branches hold under the branch condition
+                    for x in n1[0].st.pc[len(s.pc) + 1:]:
+                        s2.pc.append(z3.Implies(tv, x))
+                    for x in n2[0].st.pc[len(s.pc) + 1:]:
+                        s2.pc.append(z3.Implies(z3.Not(tv), x))
+                    return [r for r in r1 + r2 if r.exc is not None] + [Res(s2, m)]
+            return r1 + r2
         return bind(self.ev(e.test, st), f)
+
+    def same_state(self, a, b):
+        """no side effect happened between b and a (locals, heap, ghost, allocation identical)"""
+        if a.alloc is not b.alloc and not a.alloc.eq(b.alloc):
+            return False
+        if not a.next_oid.eq(b.next_oid):
+            return False
+        if set(a.heap) != set(b.heap) or any(not a.heap[k].eq(b.heap[k]) for k in a.heap):
+            return False
+        if set(a.loc) != set(b.loc) or any(a.loc[k] is not b.loc[k] for k in a.loc):
+            return False
+        if set(a.ghost) != set(b.ghost) or any(a.ghost[k] is not b.ghost[k] for k in a.ghost):
+            return False
+        return True
 
     def ev_Compare(self, e, st):
         if len(e.ops) != 1:
@@ -478,6 +539,8 @@ class Executor:
         if isinstance(op, (ast.Lt, ast.LtE, ast.Gt, ast.GtE)):
             if isinstance(a.t, TOpt) or isinstance(b.t, TOpt) or a.t is NONE or b.t is NONE:
                 raise Unbound('ordering comparison with optional value (line %s)' % node.lineno)
+            if isinstance(a.t, TNum) and a.t == b.t:
+                a, b = SV(REAL, a.z), SV(REAL, b.z)
             a, b, _ = self.num_join(a, b)
             z = {ast.Lt: a.z < b.z, ast.LtE: a.z <= b.z, ast.Gt: a.z > b.z, ast.GtE: a.z >= b.z}[type(op)]
             return [Res(s, sv_bool(z))]
@@ -512,6 +575,8 @@ class Executor:
             a, b, _ = self.num_join(a, b)
             return a.z == b.z
         if a.t is STR and b.t is STR:
+            return a.z == b.z
+        if isinstance(a.t, TNum) and a.t == b.t:
             return a.z == b.z
         if isinstance(a.t, TRef) and isinstance(b.t, TRef):
             return a.z == b.z   # == on objects without __eq__ is identity
@@ -780,11 +845,20 @@ class Executor:
             self.assumed('computed keys of record dict %s never equal its literal keys %s' % (t.nm, sorted(t.fields)))
             return bind(self.setitem(SV(t.rest, t.restz(c.z)), k, v, s, node),
                         lambda nr, s2: [Res(s2, SV(t, t.update(c.z, rest=nr.z)))])
+        if isinstance(t, TOpt):
+            s_bad = s.copy().assume(t.dt.is_none(c.z)).note('L%s: item assignment on None' % node.lineno)
+            s_ok = s.copy().assume(z3.Not(t.dt.is_none(c.z)))
+            return [Res(s_bad, exc='TypeError', node=node)] + bind(
+                self.setitem(SV(t.t, t.dt.v(c.z)), k, v, s_ok, node),
+                lambda nv, s2: [Res(s2, SV(t, t.dt.some(nv.z)))])
+        if t is NONE:
+            return [Res(s.copy().note('L%s: item assignment on None' % node.lineno), exc='TypeError', node=node)]
         raise Unbound('item store on %s (line %s)' % (t, node.lineno))
 
 
 PRIM_TYPES = {'int', 'float', 'str', 'bool', 'list', 'dict', 'tuple'}
 RDIV = z3.Function('rdiv', z3.RealSort(), z3.RealSort(), z3.RealSort())
+STRCAT = z3.Function('strcat', StrS, StrS, StrS)
 
 
 class TDictDisplay(Ty):
